@@ -3,7 +3,7 @@
    state stands for exactly the told-state of the reference model. *)
 Require Import Bytes AMap SMap Names State StateGetters NetRef.
 Require Import OrderLemmas AMapLemmas SMapLemmas NamesProofs StateInv StateHandlers NetRefLemmas StateRefine.
-Require Import RefineSimple RefineJoin RefineLeave RefineNick RefineNames RefineMode C04Getters.
+Require Import RefineSimple RefineJoin RefineLeave RefineNick RefineNames RefineMode C04Getters ToldEq.
 From Coq Require Import Lia.
 
 Lemma step_cmd cfg s r e : Inv s -> Fresh s -> Sim s r -> RWf r -> cmd_ok r e = true -> step_ok cfg s r e.
@@ -62,6 +62,19 @@ Theorem refines cfg h : conformant_history h = true ->
 Proof.
   intros Hc. destruct (run_sim cfg h state_init ref_init inv_init fresh_init sim_init rwf_init Hc) as (s & o & H & I & S & W & _).
   exists s, o. split; [exact H|]. apply sim_eq; assumption.
+Qed.
+
+(* ... stated with the literal reading of the history *)
+Theorem refines_told cfg h : conformant_history h = true ->
+  exists s out, run cfg state_init h = Ok (s, out) /\ abs s = told_run h.
+Proof. intros Hc. rewrite (told_run_eq h Hc). apply refines, Hc. Qed.
+
+Theorem refines_step_told cfg s e : Inv s -> Fresh s -> RWf (abs s) -> conformant (abs s) e = true ->
+  exists s' out, handle cfg s e = Ok (s', out) /\ Inv s' /\ Fresh s' /\ RWf (abs s') /\ abs s' = told_step (abs s) e.
+Proof.
+  intros I F W Hc. rewrite (told_step_eq _ e W Hc). destruct (one_step cfg s (abs s) e I F (sim_abs s) W Hc) as (s' & o & H & I' & F' & S' & W').
+  exists s', o. split; [exact H|]. split; [exact I'|]. split; [exact F'|].
+  assert (E : abs s' = ref_step (abs s) e) by (apply sim_eq; assumption). rewrite E. split; [exact W'|reflexivity].
 Qed.
 
 (* the one-step form, stated with abs *)
@@ -178,7 +191,7 @@ Proof. vm_compute. reflexivity. Qed.
 
 (* what the client has been told by it *)
 Example ex_told :
-  let r := ref_run ex_history in
+  let r := told_run ex_history in
   v_channel_list r = [bs "#Chan"; bs "&Two"] /\ v_user_list r = [bs "Alice"; bs "me"] /\
   option_map (fun c => (v_channel_users c, v_modes_string (rc_modes c), mode_has 107 (rc_modes c), mode_arg 108 (rc_modes c)))
      (v_lookup_channel r (bs "#CHAN")) = Some ([bs "alice"; bs "me"], bs "+ntl 5", false, Some (bs "5")) /\
